@@ -101,6 +101,9 @@ type Net struct {
 	OnClose func(c *UDPConn)
 	// OnRecv observes every datagram a socket read returns.
 	OnRecv func(c *UDPConn, d *Datagram)
+	// Setup: the world is still being set up on the root goroutine (the scheduler is not
+	// running yet): start-up code of the service that binds sockets does not park.
+	Setup bool
 	// ReusePorts: ephemeral ports may be handed out again after Close.
 	ReusePorts bool
 	freePorts  map[netip.Addr][]uint16
@@ -199,6 +202,12 @@ func (c *UDPConn) Host() *Host           { return c.host }
 func (c *UDPConn) Local() netip.AddrPort { return c.local }
 
 func (c *UDPConn) opID(kind string) string {
+	if simcore.Tag() == "" {
+		// a goroutine the code under test started itself (a listener loop started by the
+		// service's own start-up): named after the socket it serves, so that lock hand-offs
+		// and yields treat it like the goroutines the worlds start
+		simcore.SetTag(c.name)
+	}
 	c.opSeq++
 	return kind + ":" + c.name + ":" + strconv.FormatUint(c.opSeq, 10)
 }
@@ -262,7 +271,7 @@ func (n *Net) listen(ap netip.AddrPort, control func(network, address string, c 
 	n.lcount[key]++
 	id := key + ":" + strconv.Itoa(n.lcount[key])
 	n.mu.Unlock()
-	if park { // sockets opened by the code under test; worlds bind theirs from the root goroutine
+	if park && !n.Setup { // sockets opened by the code under test; worlds bind theirs from the root goroutine
 		res := n.R.Park(&simcore.Op{ID: id, Node: h.Node, NoDelay: true, Ready: func() bool { return true }})
 		if res.Killed {
 			runtimeGoexit() // node down or world over: the calling goroutine unwinds (deferred calls run)
